@@ -30,8 +30,16 @@ def load_known():
 
 def load_program(config, keep_target=False):
     info = extract.extract(config, keep_target=keep_target)
-    prog = Program(info["files"])
+    dicts = [json.load(open(p)) for p in info["files"]]
+    ren = {}
+    if os.environ.get("VERIF_NO_INLINE") != "1":
+        import renames
+        refp = os.path.join(HERE, "reference_fns.json")
+        ref = json.load(open(refp)).get("configs", {}).get(config) if os.path.exists(refp) else None
+        dicts, ren = renames.canonicalise(dicts, ref)
+    prog = Program(dicts)
     prog.extract_info = info
+    prog.renames = ren
     if os.environ.get("VERIF_NO_INLINE") != "1":
         import inline
         prog, st = inline.normalise(prog)
@@ -80,11 +88,14 @@ def main(argv):
     if len(argv) >= 2 and argv[1] == "gen-reference":
         # freeze the function ids of the current tree (all feature configurations) as the reference for inline.normalise
         os.environ["VERIF_NO_INLINE"] = "1"
-        ids = set()
+        import renames
+        ids = set(); cfgs = {}
         for cfg in extract.CONFIGS:
             ids |= set(load_program(cfg).fns.keys())
+            info = extract.extract(cfg)
+            cfgs[cfg] = renames.snapshot([json.load(open(p)) for p in info["files"]])
         ids = sorted(i for i in ids if "{closure" not in i)
-        json.dump({"tree": extract.tree_hash(os.environ.get("MAY_REPO", "/repo")), "fns": ids}, open(os.path.join(HERE, "reference_fns.json"), "w"), indent=0)
+        json.dump({"tree": extract.tree_hash(os.environ.get("MAY_REPO", "/repo")), "fns": ids, "configs": cfgs}, open(os.path.join(HERE, "reference_fns.json"), "w"), indent=0)
         print("reference: %d function ids" % len(ids)); return 0
     if len(argv) >= 2 and argv[1] == "replay":
         d = json.load(open(argv[2]))
